@@ -85,7 +85,7 @@ def mk_container(I, tag, cap='finite', finite_keys=None, present=None, wf=True):
             I.assume(capv > 0)
             I.assume(vol <= capv)
     o.fields.update(name=name, contents=contents, volume=vol, max_volume=capv,
-                    instructions=SegStr([OpaqueHole(f'instructions of {tag}')]), experimental_conditions={})
+                    instructions=SegStr([OpaqueHole(f'instructions of {tag}', {f'text:{tag}'})]), experimental_conditions={})
     return CState(o, amt, mem, vol, capv, name)
 
 
